@@ -5,7 +5,10 @@ Require Import UV.Gen.Consts UV.C03.Model UV.C03.Lib.
 
 (* REC_END messages of thread t still in the FIFO, in order *)
 Definition ends (t : tid) (c : list msg) : list bufid :=
-  flat_map (fun m => match m with MEnd b => if Nat.eqb (fst b) t then [b] else [] | _ => [] end) c.
+  flat_map (fun m => match m with
+                     | MEnd b | MExec b => if Nat.eqb (fst b) t then [b] else []
+                     | _ => []
+                     end) c.
 Definition curr_l (s : st) (t : tid) : list bufid := match curr s t with Some i => [(t, i)] | None => [] end.
 (* buffers of t the recorder has not queued yet: while the FIFO is read, those announced by a pending
    REC_END and the current one; after stop, those still in shmem_list *)
@@ -26,7 +29,8 @@ Fixpoint chan_ok (t : tid) (sl : list bufid) (c : list msg) (cur : list bufid) :
   match c with
   | [] => sl = cur
   | MStart b :: r => if Nat.eqb (fst b) t then chan_ok t (sl ++ [b]) r cur else chan_ok t sl r cur
-  | MEnd b :: r => if Nat.eqb (fst b) t then (exists sl', sl = b :: sl' /\ chan_ok t sl' r cur) else chan_ok t sl r cur
+  | MEnd b :: r | MExec b :: r =>
+      if Nat.eqb (fst b) t then (exists sl', sl = b :: sl' /\ chan_ok t sl' r cur) else chan_ok t sl r cur
   | MLost _ :: r => chan_ok t sl r cur
   end.
 
@@ -53,38 +57,52 @@ Lemma ends_app t c1 c2 : ends t (c1 ++ c2) = ends t c1 ++ ends t c2.
 Proof. unfold ends. apply flat_map_app. Qed.
 Lemma ends_In t c b : In b (ends t c) -> fst b = t.
 Proof.
-  unfold ends. rewrite in_flat_map. intros (m & _ & H). destruct m as [x|x|n]; try destruct H.
-  destruct (Nat.eqb_spec (fst x) t); [|destruct H]. destruct H as [<-|[]]. assumption.
+  unfold ends. rewrite in_flat_map. intros (m & _ & H). destruct m as [x|x|n|x]; try (destruct H; fail);
+  (destruct (Nat.eqb_spec (fst x) t); [|destruct H]); destruct H as [<-|[]]; assumption.
 Qed.
 
 Lemma chan_ok_app_end t sl c b : fst b = t -> chan_ok t sl c [b] -> chan_ok t sl (c ++ [MEnd b]) [].
 Proof.
   intro Hb. revert sl. induction c as [|m c IH]; intros sl H; cbn in *.
   - rewrite Hb, Nat.eqb_refl. exists []. split; [assumption|reflexivity].
-  - destruct m as [x|x|n]; cbn in *.
+  - destruct m as [x|x|n|x]; cbn in *.
     + destruct (fst x =? t); apply IH, H.
     + destruct (fst x =? t); [|apply IH, H]. destruct H as (sl' & -> & H). exists sl'. split; [reflexivity|apply IH, H].
     + apply IH, H.
+    + destruct (fst x =? t); [|apply IH, H]. destruct H as (sl' & -> & H). exists sl'. split; [reflexivity|apply IH, H].
 Qed.
 Lemma chan_ok_app_start t sl c b : fst b = t -> chan_ok t sl c [] -> chan_ok t sl (c ++ [MStart b]) [b].
 Proof.
   intro Hb. revert sl. induction c as [|m c IH]; intros sl H; cbn in *.
   - rewrite Hb, Nat.eqb_refl. cbn. subst sl. reflexivity.
-  - destruct m as [x|x|n]; cbn in *.
+  - destruct m as [x|x|n|x]; cbn in *.
     + destruct (fst x =? t); apply IH, H.
     + destruct (fst x =? t); [|apply IH, H]. destruct H as (sl' & -> & H). exists sl'. split; [reflexivity|apply IH, H].
     + apply IH, H.
+    + destruct (fst x =? t); [|apply IH, H]. destruct H as (sl' & -> & H). exists sl'. split; [reflexivity|apply IH, H].
+Qed.
+Lemma chan_ok_app_exec t sl c b b' : fst b = t -> fst b' = t -> chan_ok t sl c [b] ->
+  chan_ok t sl (c ++ [MStart b'; MExec b]) [b'].
+Proof.
+  intros Hb Hb'. revert sl. induction c as [|m c IH]; intros sl H; cbn in *.
+  - rewrite Hb, Hb', Nat.eqb_refl. subst sl. cbn. exists [b']. split; reflexivity.
+  - destruct m as [x|x|n|x]; cbn in *.
+    + destruct (fst x =? t); apply IH, H.
+    + destruct (fst x =? t); [|apply IH, H]. destruct H as (sl' & -> & H). exists sl'. split; [reflexivity|apply IH, H].
+    + apply IH, H.
+    + destruct (fst x =? t); [|apply IH, H]. destruct H as (sl' & -> & H). exists sl'. split; [reflexivity|apply IH, H].
 Qed.
 Definition msg_other (t : tid) (m : msg) : Prop :=
-  match m with MStart b => fst b <> t | MEnd b => fst b <> t | MLost _ => True end.
+  match m with MStart b => fst b <> t | MEnd b => fst b <> t | MLost _ => True | MExec b => fst b <> t end.
 Lemma chan_ok_app_other t sl c m cur : msg_other t m -> chan_ok t sl c cur -> chan_ok t sl (c ++ [m]) cur.
 Proof.
   intro Hm. revert sl. induction c as [|x c IH]; intros sl H; cbn in *.
-  - destruct m as [b|b|n]; cbn in *; try (destruct (Nat.eqb_spec (fst b) t); [congruence|]); assumption.
-  - destruct x as [y|y|n]; cbn in *.
+  - destruct m as [b|b|n|b]; cbn in *; try (destruct (Nat.eqb_spec (fst b) t); [congruence|]); assumption.
+  - destruct x as [y|y|n|y]; cbn in *.
     + destruct (fst y =? t); apply IH, H.
     + destruct (fst y =? t); [|apply IH, H]. destruct H as (sl' & -> & H). exists sl'. split; [reflexivity|apply IH, H].
     + apply IH, H.
+    + destruct (fst y =? t); [|apply IH, H]. destruct H as (sl' & -> & H). exists sl'. split; [reflexivity|apply IH, H].
 Qed.
 
 Lemma chan_lost_app c1 c2 : chan_lost (c1 ++ c2) = (chan_lost c1 + chan_lost c2)%N.
